@@ -1,3 +1,5 @@
+\* quick tier: ONE run model-checks the clauses on every history (no VIEW: hist is part of the state) and prints the
+\* histories for the S2C replay; the thorough tier checks the VIEW-quotient with more arguments and generates separately
 CONSTANTS MaxCalls = 2
           MaxArgs = 2
           FreeCalls = 1
@@ -5,12 +7,12 @@ CONSTANTS MaxCalls = 2
           Adopt = FALSE
 INIT Init
 NEXT Next
-VIEW View
+CONSTRAINT GenBound
 INVARIANT PoolUntouched
 INVARIANT ResultByOriginal
-INVARIANT SpellingIrrelevant
 INVARIANT SessPartition
 INVARIANT SessIdempotent
 INVARIANT SessKeepsCols
 INVARIANT NoCondIsIdentity
+INVARIANT EchoLaw
 PROPERTY ArgumentsLeftAlone
